@@ -78,6 +78,10 @@ func (c *caseWriter) put(input, impl sx) {
 	b.WriteByte('\n')
 	c.w.WriteString(b.String())
 	c.n++
+	if c.n%64 == 0 {
+		// what has been observed so far survives a crash or a hang of a later case
+		c.w.Flush()
+	}
 	noteProgress(b.String())
 }
 
